@@ -176,12 +176,18 @@ Fixpoint visit_keys (av : aview) (hs : pvec entity) (excl : bool) (eids : NS.t) 
       let '(e2, r) := visit_keys av hs excl eids ms keys' e1 in (e2, (i, xs) :: r)
   end.
 
-(* a change set joined by value is consumed *)
+(* a change set joined by value is consumed (also under .maybe()) *)
+Fixpoint m_taken (m : member) : option N :=
+  match m with
+  | MChange k mode _ => if N.eqb mode 2 then Some k else None
+  | MMaybe m' => m_taken m'
+  | _ => None
+  end.
+
 Fixpoint consume_cs (ms : list member) (e : senv) : senv :=
   match ms with
   | [] => e
-  | MChange k mode _ :: r => consume_cs r (if N.eqb mode 2 then cs_put e k (NM.empty Z) else e)
-  | _ :: r => consume_cs r e
+  | m :: r => consume_cs r (match m_taken m with Some k => cs_put e k (NM.empty Z) | None => e end)
   end.
 
 (* ------------------------------------------------------------------ *)
